@@ -33,11 +33,12 @@ def meta_xml(props: dict | None) -> str:
     return f'<?xml version="1.0" encoding="UTF-8"?><office:document-meta {NSDECL}><office:meta>{"".join(parts)}</office:meta></office:document-meta>'
 
 
-def package(kind: str, content: str, *, styles: str | None = None, props=None, media: dict | None = None, manifest_extra: str = "", extra_files: dict | None = None) -> bytes:
+def package(kind: str, content: str, *, styles: str | None = None, props=None, media: dict | None = None, manifest_extra: str = "", extra_files: dict | None = None, meta: bool = True) -> bytes:
+    """meta=False: a package without meta.xml (minimal writers leave it out when there are no document properties)"""
     media = media or {}
     entries = [f'<manifest:file-entry manifest:full-path="/" manifest:version="1.2" manifest:media-type="{MIMETYPES[kind]}"/>',
-               '<manifest:file-entry manifest:full-path="content.xml" manifest:media-type="text/xml"/>',
-               '<manifest:file-entry manifest:full-path="meta.xml" manifest:media-type="text/xml"/>']
+               '<manifest:file-entry manifest:full-path="content.xml" manifest:media-type="text/xml"/>'] + (
+               ['<manifest:file-entry manifest:full-path="meta.xml" manifest:media-type="text/xml"/>'] if meta else [])
     if styles is not None:
         entries.append('<manifest:file-entry manifest:full-path="styles.xml" manifest:media-type="text/xml"/>')
     for name in media:
@@ -48,7 +49,7 @@ def package(kind: str, content: str, *, styles: str | None = None, props=None, m
     buf = io.BytesIO()
     with zipfile.ZipFile(buf, "w") as z:
         z.writestr(zipfile.ZipInfo("mimetype", date_time=(2024, 3, 1, 12, 0, 0)), MIMETYPES[kind], compress_type=zipfile.ZIP_STORED)
-        for name, data in [("content.xml", content), ("meta.xml", meta_xml(props))] + ([("styles.xml", styles)] if styles is not None else []) + [("META-INF/manifest.xml", manifest)]:
+        for name, data in [("content.xml", content)] + ([("meta.xml", meta_xml(props))] if meta else []) + ([("styles.xml", styles)] if styles is not None else []) + [("META-INF/manifest.xml", manifest)]:
             zi = zipfile.ZipInfo(name, date_time=(2024, 3, 1, 12, 0, 0))
             z.writestr(zi, data.encode("utf-8"), compress_type=zipfile.ZIP_DEFLATED)
         for name, data in media.items():
@@ -205,7 +206,7 @@ def render_odt(doc, *, images=None, opts=None) -> bytes:
     styles = (f'<?xml version="1.0" encoding="UTF-8"?><office:document-styles {NSDECL}><office:styles><style:style style:name="Standard" style:family="paragraph"/>{heads}</office:styles>'
               '<office:automatic-styles><style:page-layout style:name="pm1"/></office:automatic-styles>'
               f'<office:master-styles><style:master-page style:name="Standard" style:page-layout-name="pm1">{hf}</style:master-page></office:master-styles></office:document-styles>')
-    return package("odt", content, styles=styles, props=doc.get("props"), media=st.media)
+    return package("odt", content, styles=styles, props=doc.get("props"), media=st.media, meta=not (st.opts.get("no_meta") and not doc.get("props")))
 
 
 # ---- presentations / drawings ------------------------------------------------------------------------------
@@ -222,6 +223,8 @@ def _page_frames(blocks, st, ctx):
                 ctx["title"] = True
             pclass = ' presentation:class="title"' if is_title else ""
             pstyle = "TitleText" if is_title else "P1"
+            if not is_title and ctx["title"] and k == "p" and b.get("h") and st.opts.get("subtitle_styles"):
+                pstyle = "SubTitle"         # a second title-like style on the slide: its text is ordinary slide text, the slide title stays the first one
             if k == "p":
                 inner = f'<text:p text:style-name="{pstyle}">{_t_inlines(b["inl"], st)}</text:p>'
             else:
@@ -288,7 +291,7 @@ def render_odp(doc, *, images=None, opts=None, kind="odp") -> bytes:
               '<office:automatic-styles><style:page-layout style:name="PM1"/></office:automatic-styles>'
               f'<office:master-styles><draw:layer-set><draw:layer draw:name="layout"/><draw:layer draw:name="backgroundobjects"/></draw:layer-set>'
               f'<style:master-page style:name="Default" style:page-layout-name="PM1">{footer}</style:master-page></office:master-styles></office:document-styles>')
-    return package(kind, content, styles=styles, props=doc.get("props"), media=st.media)
+    return package(kind, content, styles=styles, props=doc.get("props"), media=st.media, meta=not (st.opts.get("no_meta") and not doc.get("props")))
 
 
 def render_odg(doc, *, images=None, opts=None) -> bytes:
